@@ -6,6 +6,8 @@
 -/
 import Gojq.Proofs.MiniVMRefine
 namespace Gojq.MiniVM
+variable [IterMsg]
+set_option linter.unusedSectionVars false
 
 /-! ## code layout -/
 
@@ -21,6 +23,9 @@ theorem compile_length (entry : Name → Nat) : ∀ (q : Q) (g : Option Name) (e
   | arr q ih => intro g e p; simp [compile, Q.size, ih]
   | param => intros; rfl
   | call1 f a ih => intro g e p; simp [compile, Q.size, ih]
+  | error => intros; rfl
+  | try_ b ih => intro g e p; simp [compile, Q.size, ih]
+  | tryCatch b h ihb ihh => intro g e p; simp [compile, Q.size, ihb, ihh]; omega
 
 theorem Seg.mid (A B C : List Instr) : Seg (A ++ B ++ C) A.length B := by
   intro i hi
@@ -154,7 +159,7 @@ theorem funcsLen_take_succ (qs : List Q) (k : Nat) (hk : k < qs.length) :
   rw [List.take_add_one, List.getElem?_eq_getElem hk, funcsLen_append]
   simp [funcsLen]
 
-theorem skip_defs (p : Prog) (st : List SV) (F : List Fork) (bt : Bool) (e : Option Err) (R : Regs) (fr : List Frame)
+theorem skip_defs (p : Prog) (st : List SV) (F : List Fork) (bt : Bool) (e : Option VErr) (R : Regs) (fr : List Frame)
     (off : Nat) (cp : CP) :
     ∀ (j k : Nat), k + j = p.defs.length →
       Steps (compileProg p) (.run (1 + funcsLen (p.defs.take k)) st F bt e R fr off cp)
@@ -177,7 +182,7 @@ theorem skip_defs (p : Prog) (st : List SV) (F : List Fork) (bt : Bool) (e : Opt
 /-- `Run code c outs e`: from `c` the machine emits exactly `outs` (each at the main frame's `ret`,
     resuming as `Next` does) and then stops with no pending fork, carrying the error `e` -/
 inductive Run (code : Code) : Cfg → List V → Option Err → Prop where
-  | stop {c e R} : Steps code c (.fail [] e R) → Run code c [] e
+  | stop {c e R} : Steps code c (.fail [] (e.map .plain) R) → Run code c [] e
   | emit {c c' c'' w ws e} : Steps code c c' → emits code c' = some (w, c'') → Run code c'' ws e → Run code c (w :: ws) e
 
 theorem yields_run {code O P o m pr} (hret : code[pr]? = some .ret) {c outs e}
@@ -212,7 +217,7 @@ theorem exec_emit {code c w c'} (h : emits code c = some (w, c')) (n : Nat) (acc
   | run pc st fs bt e R fr off cp => simp only [exec, hs, h]
 
 theorem run_exec {code c outs e} (r : Run code c outs e) :
-    ∀ acc, ∃ n, exec code n c acc = .finished (acc.reverse ++ outs) e := by
+    ∀ acc, ∃ n, exec code n c acc = .finished (acc.reverse ++ outs) (e.map .plain) := by
   induction r with
   | @stop c e R hs =>
     intro acc
@@ -225,7 +230,7 @@ theorem run_exec {code c outs e} (r : Run code c outs e) :
     exact ⟨n + 1 + k, by rw [hk, exec_emit hem, hn]; simp⟩
 
 /-- more fuel does not change a finished run -/
-theorem exec_mono {code} : ∀ (n : Nat) (c : Cfg) (acc : List V) (o : List V) (e : Option Err),
+theorem exec_mono {code} : ∀ (n : Nat) (c : Cfg) (acc : List V) (o : List V) (e : Option VErr),
     exec code n c acc = .finished o e → ∀ k, exec code (n + k) c acc = .finished o e := by
   intro n
   induction n with
@@ -278,5 +283,25 @@ theorem prog_refines (p : Prog) (hwf : p.WF) (v : V) (n : Nat)
   have hret : (compileProg p)[1 + funcsLen p.defs + (compile (entryOf p.defs) none 0 (1 + funcsLen p.defs) p.main).length]? = some .ret := by
     rw [compile_length]; exact prog_ret p
   exact (yields_run hret y).steps_left (s1.trans (by simpa [funcsLen] using s2))
+
+/-! ## example programs for Props/C01Compile.lean -/
+
+/-- `def f₀(g): g, (.[] | f₀(g)); f₀(.)` : recursive descent -/
+def exProg : Prog :=
+  { defs := [.comma .param (.pipe .iter (.call1 0 .param))], main := .call1 0 .id }
+/-- `[[], [[]]]` -/
+def exInput : V := .arr [.arr [], .arr [.arr []]]
+
+/-- `try ((.[] | error), 1) catch [.]` : the first error of the body ends it and runs the handler -/
+def exTry : Prog :=
+  { defs := [], main := .tryCatch (.comma (.pipe .iter .error) (.const (.num (.int 1)))) (.arr .id) }
+/-- `(try 1 catch 2) | error` : the error is raised by the continuation of the `try`: not caught -/
+def exTryCont : Prog :=
+  { defs := [], main := .pipe (.tryCatch (.const (.num (.int 1))) (.const (.num (.int 2)))) .error }
+/-- `[7, 8]` -/
+def exInput2 : V := .arr [.num (.int 7), .num (.int 8)]
+
+/-- a message function for evaluating examples -/
+def exMsg : IterMsg := ⟨fun _ => .str []⟩
 
 end Gojq.MiniVM
